@@ -177,13 +177,47 @@ def limited(mem_gb, timeout_s):
     return f
 
 
-def link_harness(meta, outdir):
+CUT_FMT = re.compile(r" as std::fmt::Debug>::fmt|impl std::fmt::Debug for|std::fmt::LowerHex|std::fmt::UpperHex|"
+                     r"std::fmt::DebugStruct|std::fmt::DebugTuple|std::fmt::DebugList|std::fmt::DebugMap|std::fmt::DebugSet|builders::PadAdapter|"
+                     r"EscapeDebug|EscapeIterInner|EscapeDefault|EscapeUnicode")
+
+
+def cut_functions(o, regex):
+    """Replace the bodies of the formatting back ends no examined path can legitimately reach
+    (Debug/hex/pretty-printer machinery) by `assert(false); assume(false)`: CBMC resolves the
+    `fmt` function pointer of core::fmt::rt::Argument to every function of that signature, and
+    symbolically executing all of them dominates the run.  A real call to one of them would
+    fail the inserted assertion, i.e. the cut is checked, not assumed."""
+    r = run(["goto-instrument", "--list-goto-functions", o])
+    ids = []
+    for line in r.stdout.split("\n"):
+        m = re.match(r"^(.*) /\* (\S+) \*/\s*$", line)
+        if m and regex.search(m.group(1)):
+            ids.append(m.group(2))
+    if not ids:
+        return None
+    cmd = ["goto-instrument"]
+    for i in ids:
+        cmd += ["--remove-function-body", i]
+    r = run(cmd + [o, o])
+    if r.returncode != 0:
+        return "remove-function-body failed: " + r.stdout[-1500:]
+    return None
+
+
+def link_harness(meta, outdir, h=None):
     name = meta["pretty_name"].split("::")[-1]
     o = os.path.join(outdir, name + ".goto")
     fn = meta["mangled_name"]
+    for s0 in (["goto-cc", meta["goto_file"], KANI_LIB_C, "-o", o], ["goto-cc", o, "--function", fn, "-o", o]):
+        r = run(s0)
+        if r.returncode != 0:
+            return None, "link step failed: %s\n%s" % (" ".join(s0[:3]), r.stdout[-2000:])
+    if h is not None and h.get("cutfmt") == "1":
+        e = cut_functions(o, CUT_FMT)
+        if e:
+            return None, e
     steps = [
-        ["goto-cc", meta["goto_file"], KANI_LIB_C, "-o", o],
-        ["goto-cc", o, "--function", fn, "-o", o],
         ["goto-instrument", "--add-library", "--no-malloc-may-fail", o, o],
         ["goto-instrument", "--generate-function-body-options", "assert-false-assume-false",
          "--generate-function-body", ".*", "--drop-unused-functions", o, o],
@@ -241,10 +275,68 @@ def classify(results):
     return fails, unwind, cover_seen, cover_reached, nprops
 
 
+_rec_cache = {}
+
+
+def recursion_unwindset(goto, bound):
+    """per-function recursion bound for the recursive clone / drop glue of the Area tree
+    (a global --unwind N costs 2^N paths per clone or drop site)"""
+    if goto not in _rec_cache:
+        r = run(["goto-instrument", "--list-goto-functions", goto])
+        ids = []
+        for line in r.stdout.split("\n"):
+            m = re.match(r"^(.*) /\* (\S+) \*/\s*$", line)
+            if not m:
+                continue
+            pretty, mangled = m.group(1), m.group(2)
+            if "area::Area" in pretty and re.search(r"Clone>::clone|drop_glue|drop_in_place|clone_one|clone_to_uninit", pretty):
+                ids.append(mangled)
+        _rec_cache[goto] = ids
+    return ",".join("%s:%s" % (i, bound) for i in _rec_cache[goto])
+
+
+_fn_cache = {}
+
+
+def list_functions(goto):
+    if goto not in _fn_cache:
+        r = run(["goto-instrument", "--list-goto-functions", goto])
+        fs = []
+        for line in r.stdout.split("\n"):
+            m = re.match(r"^(.*) /\* (\S+) \*/\s*$", line)
+            if m:
+                fs.append((m.group(1), m.group(2)))
+        _fn_cache[goto] = fs
+    return _fn_cache[goto]
+
+
+def resolve_unwindset(goto, spec):
+    """`uw=fname.N:B;other.N:B` with fname the last path segment of the function's pretty name"""
+    out = []
+    for tok in spec.split(";"):
+        if not tok:
+            continue
+        m = re.match(r"^(.+)\.(\d+):(\d+)$", tok)
+        if not m:
+            raise SystemExit("bad uw token " + tok)
+        name, n, b = m.groups()
+        for pretty, mangled in list_functions(goto):
+            base = re.sub(r"::<.*$", "", pretty)
+            if base == name or base.endswith("::" + name):
+                out.append("%s.%s:%s" % (mangled, n, b))
+    return ",".join(out)
+
+
 def run_cbmc(goto, h, extra=None, timeout=None):
     cmd = ["cbmc"] + CBMC_FLAGS + ["--unwind", str(h["unwind"])]
-    if h.get("unwindset"):
-        cmd += ["--unwindset", h["unwindset"]]
+    us = h.get("unwindset", "")
+    if h.get("uw"):
+        us = (us + "," + resolve_unwindset(goto, h["uw"])).strip(",")
+    if h.get("rec"):
+        rs = recursion_unwindset(goto, h["rec"])
+        us = (us + "," + rs).strip(",")
+    if us:
+        cmd += ["--unwindset", us]
     cmd += ["--json-ui"] + (extra or []) + [goto]
     to = float(timeout or h["timeout"])
     t0 = time.time()
@@ -313,7 +405,7 @@ def verify_one(h, table, outdir):
     if meta is None:
         res.update(verdict="ERROR", detail="harness not found in kani metadata")
         return res
-    goto, err = link_harness(meta, outdir)
+    goto, err = link_harness(meta, outdir, h)
     if err:
         res.update(verdict="ERROR", detail=err)
         return res
